@@ -1,3 +1,90 @@
-(** C12 placeholder while the proofs are under construction *)
+(** C12 — parsing is idempotent; raw, parsed and piecewise-parsed schemas behave alike.
+    Statements only; proofs in proofs/PiecewiseProofs.v and proofs/InlineProofs.v.
+
+    NOT proved (checked by the correspondence corr:three-forms on every (schema, subset)):
+      C12_piecewise: for children parsed first against a shared table and a parent that refers to
+        them by name, [inline tbl_pw s_pw] is the parse of the schema written inline (up to the
+        table being a superset);
+      C12_ops_respect_equiv: binary / JSON / validate / generate resolve references through the
+        table only, hence agree on raw, parsed and piecewise forms - a statement about the codec
+        models (model/Codec.v ...), compared on the implementation only.
+    Proved: the marker path, parse-twice, re-parse of the unmarked parsed schema (names, canonical
+    form), and self-containedness of the inlined schema relative to the table. *)
 From Coq Require Import String.
-From FA Require Import model.Base model.Json model.Parse model.Canon model.Piecewise.
+From FA Require Import model.Base model.Json model.Parse model.SchemaSpec model.Inline model.Canon model.Piecewise
+     proofs.JsonProofs proofs.ParseProofs proofs.CanonProofs proofs.InlineProofs proofs.PiecewiseProofs.
+Open Scope string_scope.
+
+(** parsing an already parsed (marked) schema returns it unchanged and copies its embedded
+    table into the caller's dictionary *)
+Theorem C12_idempotent_marked : forall f kv emb t,
+  jhas "__fastavro_parsed" kv = true -> jget "__named_schemas" kv = Some (JObj emb) ->
+  parse_schema (S f) (JObj kv) t = POk (JObj kv, jupdate emb t).
+Proof. exact parse_marked. Qed.
+Print Assumptions C12_idempotent_marked.
+
+(** parse_schema (parse_schema j) = parse_schema j for a raw record: the first parse marks its
+    result and embeds the final dictionary, the second returns it as it is *)
+Theorem C12_idempotent : forall f kv t0 p t ty,
+  jhas "__fastavro_parsed" kv = false -> jget "type" kv = Some (JStr ty) -> (ty = "record" \/ ty = "error") ->
+  parse_schema f (JObj kv) t0 = POk (p, t) ->
+  forall f' t1, parse_schema (S f') p t1 = POk (p, jupdate t t1).
+Proof. exact parse_twice. Qed.
+Print Assumptions C12_idempotent.
+
+(** the parser's output, read as a raw schema in the same namespace, has the same specification
+    form, defines the same full names (thanks to the kept "namespace": "") and stays in the class
+    simple ... *)
+Theorem C12_reparse_names : forall f j ns wh st d p st',
+  simple_m j PSchema = true -> parse_rec f j ns wh st d = POk (p, st') ->
+  pcf_json_in ns p = pcf_json_in ns j /\ spec_names ns p = spec_names ns j /\ simple_m p PSchema = true.
+Proof. exact parse_rec_reparse. Qed.
+Print Assumptions C12_reparse_names.
+
+(** ... hence parsing it again - without the marker, e.g. the reader's writer_schema - gives the
+    same canonical form and the same names, WHEN it is accepted (what is missing: that the parser
+    accepts its own output; the correspondence checks it on every schema) *)
+Theorem C12_reparse_partial : forall f j ns wh st d p st' f2 wh2 st2 d2 p2 st2',
+  simple_m j PSchema = true -> parse_rec f j ns wh st d = POk (p, st') ->
+  parse_rec f2 p ns wh2 st2 d2 = POk (p2, st2') ->
+  canon p2 = canon p /\ carried_names p2 = carried_names p.
+Proof. exact reparse_same. Qed.
+Print Assumptions C12_reparse_partial.
+
+(** self-contained relative to the table: after inlining, every reference either follows its
+    definition (document order) or names a type that is not a key of the table; in particular,
+    when every name is in the table, the container header and the canonical form carry a
+    definition for every name they refer to (full statement [closed (inline tbl s)] for tables
+    closed under reference: not proved) *)
+Theorem C12_selfcontained_partial : forall tbl p q, inline tbl p = POk q -> closed_rel tbl q = true.
+Proof. exact inline_result_closed_rel. Qed.
+Print Assumptions C12_selfcontained_partial.
+
+(** for a schema parsed from scratch nothing is inlined and the result is self-contained *)
+Theorem C12_parsed_selfcontained : forall f j p t,
+  unmarked j = true -> parse_schema f j [] = POk (p, t) -> inline t p = POk p /\ closed p = true.
+Proof. intros f j p t U H. split; [eapply inline_id_on_parsed; eauto|eapply parsed_is_closed; eauto]. Qed.
+Print Assumptions C12_parsed_selfcontained.
+
+(** ---- evaluated instances (closed boolean computations) ---- *)
+Definition ex_parent_inline : json :=
+  JObj [("type", JStr "record"); ("name", JStr "n.A");
+        ("fields", JArr [JObj [("name", JStr "b");
+                               ("type", JObj [("type", JStr "record"); ("name", JStr "B");
+                                   ("fields", JArr [JObj [("name", JStr "c");
+                                       ("type", JObj [("type", JStr "array");
+                                                      ("items", JObj [("type", JStr "enum"); ("name", JStr "C"); ("symbols", JArr [JStr "X"; JStr "Y"])])])]])])];
+                         JObj [("name", JStr "c2"); ("type", JArr [JStr "null"; JStr "C"])]])].
+Definition ex_pieces : list json :=
+  [JObj [("type", JStr "enum"); ("name", JStr "n.C"); ("symbols", JArr [JStr "X"; JStr "Y"])];
+   JObj [("type", JStr "record"); ("name", JStr "n.B");
+         ("fields", JArr [JObj [("name", JStr "c"); ("type", JObj [("type", JStr "array"); ("items", JStr "n.C")])]])];
+   JObj [("type", JStr "record"); ("name", JStr "n.A");
+         ("fields", JArr [JObj [("name", JStr "b"); ("type", JStr "n.B")];
+                          JObj [("name", JStr "c2"); ("type", JArr [JStr "null"; JStr "C"])]])]].
+
+Example C12_piecewise_instance : pw_check ex_pieces ex_parent_inline = true.
+Proof. vm_compute. reflexivity. Qed.
+
+Example C12_idempotent_instance : idem_check ex_parent_inline = true /\ reparse_check ex_parent_inline = true.
+Proof. split; vm_compute; reflexivity. Qed.
